@@ -152,9 +152,9 @@ class Facts:
         pk = os.path.join(d, "facts.pickle")
         if os.path.exists(pk):
             with open(pk, "rb") as fh:
-                self.fns, self.adts, self.consts, self.crates = pickle.load(fh)
+                self.fns, self.adts, self.consts, self.crates, self.astattrs = pickle.load(fh)
         else:
-            self.fns, self.adts, self.consts, self.crates = {}, {}, {}, {}
+            self.fns, self.adts, self.consts, self.crates, self.astattrs = {}, {}, {}, {}, {}
             for f in sorted(glob.glob(os.path.join(d, "*.jsonl"))):
                 with open(f) as fh:
                     head = json.loads(fh.readline())
@@ -172,8 +172,10 @@ class Facts:
                             self.adts[r["id"]] = r
                         elif k == "const":
                             self.consts[r["id"]] = r
+                        elif k == "astattrs":
+                            self.astattrs[r["id"]] = r
             with open(pk + ".tmp", "wb") as fh:
-                pickle.dump((self.fns, self.adts, self.consts, self.crates), fh, protocol=4)
+                pickle.dump((self.fns, self.adts, self.consts, self.crates, self.astattrs), fh, protocol=4)
             os.rename(pk + ".tmp", pk)
         self.by_name = {}
         for k, f in self.fns.items():
